@@ -369,9 +369,11 @@ func runDisputeHistory(t *testing.T, seed int64) (string, map[string]int, string
 	w.focus = "dispute"
 	stats := map[string]int{}
 	var steps []string
+	var nextParams []*big.Int
 	do := func(name string, signer int, roles map[int]string, f func(ctx sdk.Context) error) opResult {
 		before := w.holdings()
-		res := w.deliver(name, signer, nil, f)
+		res := w.deliver(name, signer, nextParams, f)
+		nextParams = nil
 		ds := diffHoldings(before, w.holdings(), signer, roles)
 		steps = append(steps, coqStep(res, w.snap(), ds))
 		stats[fmt.Sprintf("%s/%d", res.name, res.result)]++
@@ -453,6 +455,7 @@ func runDisputeHistory(t *testing.T, seed int64) (string, map[string]int, string
 				}
 			}
 		}
+		nextParams = []*big.Int{bi(int64(b2i(bond)))}
 		res := do("ProposeDispute", proposer, roles, func(ctx sdk.Context) error {
 			_, err := w.disputeMS.ProposeDispute(ctx, &disputetypes.MsgProposeDispute{Creator: w.accts[proposer].String(), Report: &rep, DisputeCategory: cat, Fee: w.coin(fee), PayFromBond: bond})
 			return err
@@ -474,6 +477,7 @@ func runDisputeHistory(t *testing.T, seed int64) (string, map[string]int, string
 				if first.Cmp(full) < 0 && r.Intn(4) != 0 {
 					payer := pick(r, proposer, nVals+3)
 					roles := w.backersOf(rep)
+					nextParams = []*big.Int{bi(0)}
 					do("AddFeeToDispute", payer, roles, func(ctx sdk.Context) error {
 						_, err := w.disputeMS.AddFeeToDispute(ctx, &disputetypes.MsgAddFeeToDispute{Creator: w.accts[payer].String(), DisputeId: id, Amount: w.coin(bsub(full, first)), PayFromBond: false})
 						return err
